@@ -485,7 +485,8 @@ void SimulateMsp430::update_reg(int reg_index, int mode, int bw)
 
   if (mode == 3) // @Rn+
   {
-    if (bw == BW_WORD)
+    // SP is always incremented by 2, also for byte operations.
+    if (bw == BW_WORD || reg_index == 1)
     {
       reg[reg_index] += 2;
     }
